@@ -255,12 +255,14 @@ impl MultiState {
             .map(|(d, width)| d.visual_line_count(.., width))
             .unwrap_or_default();
 
-        // Track the total number of zombie lines on the screen
-        self.zombie_lines_count = self.zombie_lines_count.saturating_add(line_count);
-
         // Make `DrawTarget` forget about the zombie lines so that they aren't cleared on next draw.
-        self.draw_target
+        let kept = self
+            .draw_target
             .adjust_last_line_count(LineAdjust::Keep(line_count));
+
+        // Track the total number of zombie lines on the screen: only the lines that were actually
+        // there (none after a `clear()`, for example)
+        self.zombie_lines_count = self.zombie_lines_count.saturating_add(kept);
 
         self.remove_idx(index);
     }
@@ -351,10 +353,11 @@ impl MultiState {
         // The zombie lines were drawn for the last time, so make `DrawTarget` forget about them
         // so they aren't cleared on next draw.
         if extra_lines.is_none() {
-            self.draw_target
+            let kept = self
+                .draw_target
                 .adjust_last_line_count(LineAdjust::Keep(adjust));
             // Track the total number of zombie lines on the screen.
-            self.zombie_lines_count += adjust;
+            self.zombie_lines_count += kept;
         }
 
         drawable
